@@ -178,6 +178,10 @@ func genScenario(t *rapid.T, idx int) Scenario {
 				d = sec() + prior
 			}
 			opt := rapid.SampledFrom([]string{"NX", "XX", "GT", "LT", "nx", "xx", "gt", "lt"}).Draw(t, "opt")
+			if rapid.IntRange(0, 3).Draw(t, "nonpos") == 0 {
+				// a deadline that is already over: the key goes at once - if the option's condition holds
+				n = rapid.SampledFrom([]int{0, -5}).Draw(t, "npval")
+			}
 			add("attach", kit.MkCmd("EXPIRE", k, strconv.Itoa(n), opt))
 			nd := sec() + n
 			switch strings.ToUpper(opt) {
@@ -250,6 +254,13 @@ func genScenario(t *rapid.T, idx int) Scenario {
 				d = sec() + 1
 			}
 		case "touch": // a write that must not touch the deadline
+			if typ == "list" && rapid.Bool().Draw(t, "rotate") {
+				if rapid.Bool().Draw(t, "single") {
+					add("follow", kit.MkCmd("LPOP", k)) // down to one element: the rotation passes through "empty"
+				}
+				add("follow", kit.MkCmd("LMOVE", k, k, "LEFT", "RIGHT")) // a rotation in place: same key, same deadline
+				break
+			}
 			w := map[string][]string{"string": {"APPEND", "K", "y"}, "list": {"LPUSH", "K", "y"}, "set": {"SADD", "K", "y"},
 				"hash": {"HSET", "K", "y", "1"}, "zset": {"ZADD", "K", "9", "y"}, "stream": {"XADD", "K", "7-1", "y", "1"}}[typ]
 			add("follow", subst(w, k))
